@@ -23,6 +23,7 @@ import PvProofs.Lemmas.VownerGrants
 import PvProofs.Lemmas.VownerChecker
 import PvProofs.Lemmas.VownerFirst
 import PvProofs.Lemmas.VownerExchange
+import PvProofs.C09Denom
 
 namespace PvProofs.C09
 open PvModel PvModel.Ledger PvModel.Vowner PvProofs.VownerL
@@ -80,10 +81,16 @@ theorem markerTransfer_ne_ok (s : State) (ad frm to : Addr) (id : ScopeId) (s' :
   simp only [exec, markerTransfer]
   split <;> simp
 
+/-- the model's marker request on scope `id`'s denom is answered by the unrestricted-denom test on
+the denom TEXT, and that text — `nft/` + anything — fails it (`C09Denom.scopeDenom_refused`) -/
+theorem markerAdd_eq_invalid (s : State) (sg : Addr) (id : ScopeId) (n : Nat) (r f : Bool) :
+    markerAdd s sg id n r f = .error .invalid := by
+  simp [markerAdd, scopeDenomText, C09Denom.scopeDenom_refused]
+
 /-- a marker request for a scope denom never succeeds (`ValidateUnrestictedDenom`) -/
 theorem markerAdd_ne_ok (s : State) (sg : Addr) (id : ScopeId) (n : Nat) (r f : Bool) (s' : State) :
     exec s (.mkadd sg id n r f) ≠ .ok s' := by
-  simp [exec, markerAdd]
+  simp [exec, markerAdd_eq_invalid]
 
 /-- One successful operation: the invariant is kept and every holder change is a `GoodStep`
 (consent of the old holder, deposit permission on a restricted marker) with respect to the
@@ -724,18 +731,41 @@ theorem marker_transfer_never_moves_scope_token (s : State) (ad frm to : Addr) (
   | ok s1 => exact absurd h (markerTransfer_ne_ok _ _ _ _ _ _)
 
 /-- a marker request (MsgAddMarker / MsgAddFinalizeActivateMarker, any supply, type, forced-transfer
-flag) for the denom of a scope token is rejected in every state and changes nothing: no marker can
-come to exist on a scope denom, so neither the marker module's mint/burn nor its (forced) transfer
-ever applies to a scope token -/
+flag) for the denom of a scope token, sent by an account that is not the governance authority, is
+rejected as an invalid denom in every state and changes nothing: no marker can come to exist on a
+scope denom, so neither the marker module's mint/burn nor its (forced) transfer ever applies to a
+scope token.
+
+Derived, not assumed: the model's `markerAdd` asks `DenomRegex.unrestrictedDenomOk` — the anchored
+match of `[a-zA-Z][a-zA-Z0-9\-\.]{2,83}` on the WHOLE denom, as `Keeper.ValidateUnrestictedDenom`
+(x/marker/keeper/params.go:53) does — about the denom text `nft/…`, and
+`C09Denom.scopeDenom_refused` proves that this text fails it for every scope address (`/` is not in
+the class and the end anchor does not let the match stop before it:
+`C09Denom.end_anchor_is_what_refuses`, `C09Denom.unanchored_accepts_scope_denom`).  The expression
+and the anchors are pinned to the source by `C09Facts.unrestricted_denom_regex_expected` /
+`validate_denom_anchored_both_ends`; that the real handlers call the validation first is what the
+correspondence op `mkadd` exercises.
+
+The governance authority as sender (`msg.FromAddress == k.GetAuthority()`) SKIPS this validation
+(x/marker/keeper/msg_server.go:64-73; AddFinalizeActivateMarker likewise) — a governance proposal
+can create a marker on any denom.  That sender is outside the model and outside this theorem. -/
 theorem marker_add_on_scope_denom_never_accepted (s : State) (sg : Addr) (id : ScopeId) (n : Nat) (r f : Bool) :
+    DenomRegex.unrestrictedDenomOk (scopeDenomText id) = false ∧
     (applyOp s (.mkadd sg id n r f)).1 = s ∧ (applyOp s (.mkadd sg id n r f)).2 = "err:invalid" := by
+  refine ⟨C09Denom.scopeDenom_refused id, ?_⟩
+  have h : exec s (.mkadd sg id n r f) = .error .invalid := by
+    simp only [exec]; exact markerAdd_eq_invalid s sg id n r f
   unfold applyOp
-  cases h : exec s (.mkadd sg id n r f) with
-  | error e =>
-    simp only [exec, markerAdd] at h
-    cases h
-    exact ⟨rfl, rfl⟩
-  | ok s1 => exact absurd h (markerAdd_ne_ok _ _ _ _ _ _ _)
+  rw [h]
+  exact ⟨rfl, rfl⟩
+
+/-- the refusal above really is the denom test's: were the test to accept the text (as the same
+expression WITHOUT the end anchor does — `C09Denom.unanchored_accepts_scope_denom`), the model would
+not answer `err:invalid` -/
+theorem marker_add_answer_is_the_denom_test (s : State) (sg : Addr) (id : ScopeId) (n : Nat) (r f : Bool) :
+    (markerAdd s sg id n r f = .error .invalid ↔ DenomRegex.unrestrictedDenomOk (scopeDenomText id) = false) := by
+  unfold markerAdd
+  cases DenomRegex.unrestrictedDenomOk (scopeDenomText id) <;> simp
 
 /-- **whichever_message_consent_partial** — for EVERY operation of the extended set (four metadata
 messages, MsgSend, MsgMultiSend, marker MsgWithdraw, marker MsgTransfer, exchange MsgCreateAsk /
